@@ -90,9 +90,9 @@ Proof.
   - destruct b as [y| | | |]; try discriminate. cbn in H, Hd, Hn. unfold leaf_data_eqb in Hd.
     apply andb_prop in Hd as [Hk Ht]. apply lkind_eqb_eq in Hk. unfold leaf_script in H. rewrite <- Hk in H.
     assert (Hnum : lk x <> KNull -> OK (EMatch (leaf_match_cost x y)) = OK e -> cost e = 0).
-    { intros Hnn He. inversion He; subst e. cbn. unfold leaf_match_cost.
+    { intros Hnn He. inversion He; subst e. cbn [cost]. unfold leaf_match_cost, leaf_match_cost_raw.
       destruct (lk x) eqn:Ekx; cbn in Ht;
-        try (apply str_eqb_true_eq in Ht; rewrite Ht, lev_refl, Hn, !andb_false_r; reflexivity).
+        try (apply str_eqb_true_eq in Ht; rewrite Ht, lev_refl, Hn, !andb_false_r; apply leaf_cap_zero).
       exfalso. apply Hnn. reflexivity. }
     destruct (lk x) eqn:Ekx; try (apply Hnum; [discriminate|exact H]).
     + cbn in Ht. rewrite Ht in H. inversion H; reflexivity.
@@ -345,9 +345,9 @@ Qed.
 
 (* LeafNode.edits as the current source has it (GTgen.EdGen.leaf_zero_cost_adjusted): a Match of two leaves costs 0
    only if they are == *)
-Lemma leaf_match_priced : forall x y, priced (Leaf x) (Leaf y) (EMatch (leaf_match_cost x y)) = true.
+Lemma leaf_match_priced_raw : forall x y, priced (Leaf x) (Leaf y) (EMatch (leaf_match_cost_raw x y)) = true.
 Proof.
-  intros x y. cbn [priced node_eqb]. unfold leaf_match_cost.
+  intros x y. cbn [priced node_eqb]. unfold leaf_match_cost_raw.
   pose proof (lev_nonneg (ltext x) (ltext y)) as Hd. set (d := lev (ltext x) (ltext y)) in *.
   change leaf_zero_cost_adjusted with true. cbn [andb].
   destruct (Z.eqb_spec d 0) as [E|E]; destruct (py_eqb x y) eqn:Ep; cbn [negb andb].
@@ -355,6 +355,16 @@ Proof.
   - reflexivity.
   - apply andb_true_intro. split; [apply Z.leb_le; lia|]. destruct (d =? 0); reflexivity.
   - apply andb_true_intro. split; [apply Z.leb_le; lia|]. apply Z.eqb_neq in E. rewrite E. reflexivity.
+Qed.
+(* the cap (min with the replace cost, which is >= 1) keeps that: it never turns a positive cost into 0 *)
+Lemma leaf_match_priced : forall x y, priced (Leaf x) (Leaf y) (EMatch (leaf_match_cost x y)) = true.
+Proof.
+  intros x y. pose proof (leaf_match_priced_raw x y) as H. cbn [priced node_eqb] in *. unfold leaf_match_cost.
+  apply andb_prop in H as [H0 H1]. apply Z.leb_le in H0.
+  destruct (leaf_cap_spec x y _ H0) as [[L U] Z0].
+  apply andb_true_intro. split; [apply Z.leb_le; exact L|].
+  destruct (Z.eqb_spec (leaf_cap x y (leaf_match_cost_raw x y)) 0) as [E|E]; [|reflexivity].
+  apply (proj1 Z0) in E. rewrite E in H1. exact H1.
 Qed.
 
 Lemma str_script_pos : forall s t, str_eqb s t = false -> 0 < fst (str_script s t).
